@@ -2,7 +2,7 @@ import CTV.Model.SigVerify
 import CTV.Lemmas.DerSig
 /-! Helper lemmas for C05: what the regenerated tables say, and the (EC)DSA branch of `verifySignature`. -/
 namespace CTV.SigV
-open CTV CTV.SigInput CTV.Der
+open CTV CTV.SigInput CTV.DerSig
 set_option linter.unusedSimpArgs false
 set_option linter.unnecessarySeqFocus false
 
